@@ -60,7 +60,8 @@ def build_flux(case, surfs):
     if cont == 'mfm':
         return 'img.mfm', flux.hxcmfm_from_surfaces(surfs, nt, spt, order=ordf, **kw)
     ver = 1 if cont == 'hfe1' else 3
-    return 'img.hfe', flux.hfe_from_surfaces(surfs, nt, spt, enc, ver, order=ordf, pad_tracks=case.get('pad', True), **kw)
+    return 'img.hfe', flux.hfe_from_surfaces(surfs, nt, spt, enc, ver, order=ordf, pad_tracks=case.get('pad', True),
+                                              lut_exact=case.get('lut_exact', False), **kw)
 
 
 def w_equiv(case):
@@ -254,6 +255,22 @@ def fam_gaps(tier):
                        'sigx': 'unpadded'}
 
 
+def fam_tracklen(tier):
+    """HFE with the LUT carrying the exact track data length (any residue mod 512): gap1 swept so that the end of the last sector moves through every position of the final 512-byte block pair, one and two sides, with and without a trailing gap"""
+    short = [['type', '--binary', 'ALL'], ['cat']]
+    for enc, per_byte, span in (('FM', 4, 130), ('MFM', 2, 258)):
+        step = 1 if tier == 'thorough' else 3
+        for g1 in range(0, span, step):
+            for sides in (1, 2):
+                for tail in (0, 8):
+                    for cont in ('hfe1', 'hfe3'):
+                        if tier == 'quick' and cont == 'hfe3' and g1 % 9:
+                            continue
+                        yield {'w': 'equiv', 'enc': enc, 'container': cont, 'sides': sides, 'ntracks': 2, 'spt': 10 if enc == 'FM' else 18,
+                               'gaps': {'gap1': g1, 'tail': tail, 'index_mark': False}, 'lut_exact': True, 'cmds': short,
+                               'sigx': 'tracklen', 'note': 'exact LUT length, gap1=%d tail=%d' % (g1, tail)}
+
+
 def stream_len(enc):
     img, _ = surface(2, 4, 'V3', 'V3')
     trs = flux.disc_to_tracks(img, 2, 4, 0, enc)
@@ -280,7 +297,7 @@ def fam_opcodes(tier):
 
 
 FAMILIES = [('M-encoding-container-sides-geometry', fam_matrix), ('O-sector-orders', fam_orders),
-            ('G-gaps-sync-padding', fam_gaps), ('V-hfe3-opcodes', fam_opcodes)]
+            ('G-gaps-sync-padding', fam_gaps), ('L-exact-track-lengths', fam_tracklen), ('V-hfe3-opcodes', fam_opcodes)]
 
 
 def main(tier, seed):
